@@ -240,6 +240,7 @@ class _ModuleCache:
         # change when *any* resource is created, moved or removed, not only
         # when one of the cached modules is.
         structure_observer = rope.base.resourceobserver.ResourceObserver(
+            changed=self._uncached_module_changed,
             moved=self._structure_changed,
             created=self._structure_changed,
             removed=self._structure_changed,
@@ -249,6 +250,13 @@ class _ModuleCache:
 
     def _structure_changed(self, resource, new_resource=None):
         self.forget_all_data()
+
+    def _uncached_module_changed(self, resource):
+        # A module that could not be parsed when it was asked for is neither
+        # cached nor watched; what others concluded from importing it is
+        # stale once it changes.
+        if resource not in self.module_map and self.pycore.is_python_file(resource):
+            self.forget_all_data()
 
     def _invalidate_resource(self, resource):
         if resource in self.module_map:
